@@ -26,6 +26,7 @@ type Global struct {
 	filePkg   map[string]string // contract file (dir/base) -> package name
 	modsets   map[*ssa.Function]map[string]modInfo
 	modBusy   map[*ssa.Function]bool
+	busyHits  int
 	repo      string
 	fnIDs     map[*ssa.Function]int
 }
